@@ -201,3 +201,70 @@ func dedupTx(txs []vt.Tx) []vt.Tx {
 	}
 	return out
 }
+
+// RunViewStorm drives one node through many views (change views from every peer, then its own
+// timeout; occasionally a proposal, a poisoned proposal or a recovery message in between), far
+// beyond what timed worlds can reach: the clock jumps to each deadline.
+func RunViewStorm(r sim.Src, mons []*sim.Mon, keepLog bool) *sim.World {
+	n := 1 + pick(r, "N", 10, 5, 5, 40, 10, 10, 20)
+	self := r.Intn("self", n)
+	tpb := []time.Duration{time.Second, 5 * time.Second, 15 * time.Second, 100 * time.Millisecond}[r.Intn("tpb", 4)]
+	base := make([]int, n)
+	for i := range base {
+		base[i] = i
+	}
+	amev := int64(-1)
+	if r.Intn("amev", 3) == 0 {
+		amev = 0
+	}
+	cfg := sim.Cfg{IDs: n, Validators: func(uint32) []int { return base }, ValDesc: fmt.Sprintf("const[0..%d]", n-1), StartTip: uint32(r.Intn("tip", 20)),
+		AMEVHeight: amev, TimePerBlock: tpb, TsIncrement: 1_000_000, Epoch: epoch0}
+	s := sim.NewSolo(cfg, r, self, false, mons, keepLog)
+	nd := s.N
+	nd.Start()
+	target := 3 + r.Intn("views", 45)
+	for step := 0; step < 4*target && int(s.V()) < target && len(s.W.Viols) == 0 && !nd.Crashed && !nd.D.BlockSent(); step++ {
+		s.W.Step = step + 1
+		v := s.V()
+		if nd.Timer.D > 50*365*24*time.Hour {
+			break // the next deadline lies beyond the clock range the contract covers (< year 2262)
+		}
+		switch pick(r, "storm", 60, 10, 10, 10, 10) {
+		case 0:
+			for _, j := range s.Others() {
+				nd.Receive(s.CV(j, v, v+1))
+			}
+			if s.V() == v && nd.Timer.Pending {
+				s.Fire()
+			}
+		case 1:
+			if nd.Timer.Pending {
+				s.Fire()
+			}
+		case 2:
+			if !nd.D.IsPrimary() && !nd.D.RequestSentOrReceived() {
+				nd.Receive(s.Proposal(v, s.NextTs(), uint64(step), s.W.NewTx(true)))
+			}
+		case 3:
+			if o := s.Others(); len(o) > 0 {
+				var cvs []sim.Payload
+				for _, j := range o {
+					cvs = append(cvs, s.CV(j, v, v+1+byte(r.Intn("jump", 3))))
+				}
+				nd.Receive(s.Recovery(o[0], v+1, cvs...))
+			}
+		default:
+			if len(nd.D.MissingTransactions) > 0 {
+				if tx, ok := s.W.TxByHash(nd.D.MissingTransactions[0]); ok {
+					nd.Transaction(tx)
+				}
+			}
+		}
+	}
+	if int(s.V()) >= 20 {
+		s.W.Stat("storm_view_ge_20")
+	}
+	s.W.Stat("storm")
+	s.W.Finish()
+	return s.W
+}
